@@ -343,16 +343,21 @@ def check(run):
             if (t == "u") != (v == "u") or v not in ("u", "p", "d"):
                 reg_bad.append((n, a, t, v, st))
     # ---- stream 2: beyond the configuration-line length (truncation, name buffer): correspondence only
-    bpairs, cut = beyond_cases(fc)
+    # (after a broken obligation the model runs on the reference constants: a difference OUTSIDE the property's domain would then say
+    #  nothing about the property, so this stream is left out and the broken obligation is what gets reported)
+    bpairs, cut = beyond_cases(fc) if not run.using_reference else ([], 0)
+    if run.using_reference:
+        run.notes.append("beyond-domain correspondence stream skipped (reference constants in use)")
     # elements as the copy buffer keeps them; a name that reaches the name buffer's size is not measured alone (it is the fault under test)
-    bc, _, _ = chain_cases(run, exe, bpairs, "beyond", view=lambda c: b";".join(e for e in c[:max(cut, 0)].split(b";") if e.find(b":") < fc["name_max"]))
-    res2 = corr_stream(run, AREA, exe, bc, stream="beyond", impl_env=FAST_ASAN)
+    bc, _, _ = ([], None, None) if not bpairs else chain_cases(run, exe, bpairs, "beyond", view=lambda c: b";".join(e for e in c[:max(cut, 0)].split(b";") if e.find(b":") < fc["name_max"]))
+    res2 = corr_stream(run, AREA, exe, bc, stream="beyond", impl_env=FAST_ASAN) if bc else {"mismatch": [], "spec_bad": [], "faults": [], "model": [], "impl": []}
     nv2, mism2 = classify(run, res2, bc, "beyond", in_domain=False)
     # ---- end to end
     ee = e2e(run, exe, fc, alpha, run.tier, rng, pty_ok) if not crashed else {"calls": 0, "processes": 0, "skipped": True}
     nv_total = len(run.violations)
     if not ok and nv_total == 0:
-        run.violation("proof:%s" % failed, "proof", "proof obligation no longer checks: %s\n%s" % (failed, log[-1500:]), {"theorem": failed, "coq_log": log[-3000:]})
+        run.violation("proof:%s" % failed, "proof", "proof obligation no longer checks: %s; %s\n%s" % (failed, "; ".join(n for n in run.notes if n.startswith("translator") or n.startswith("skeleton")) or "the translator recognised every statement (the regenerated constants themselves violate the side condition)", log[-1500:]),
+                      {"theorem": failed, "coq_log": log[-3000:], "translator_notes": [n for n in run.notes if n.startswith("translator") or n.startswith("skeleton")]})
     if (mism or mism2 or reg_bad) and nv_total == 0:
         if mism or mism2:
             i, c, m, im = (mism or mism2)[0]
